@@ -114,3 +114,14 @@ fn entry_jc2m(args: &[&str]) -> String {
     };
     run_q(script, || jc2m::query_with_timeout(&IP, port, timeout(r)), show_jc2m)
 }
+
+crate::impl_view_dump!(
+    three::Response,
+    "protocols/gamespy/protocols/three/types.rs",
+    "Response",
+    "protocols/gamespy/protocols/three/types.rs",
+    "Player"
+);
+crate::impl_view_dump!(jc2m::Response, "games/jc2m/types.rs", "Response", "games/jc2m/types.rs", "Player");
+// the raw variables of `query_vars` are not a response
+impl crate::views::ViewDump for HashMap<String, String> {}
